@@ -28,7 +28,11 @@ type Found struct {
 
 // Explorer is the iterative-context-bounding stateless DFS.
 type Explorer struct {
-	Bound    int // preemption bound
+	Bound    int // preemption bound (or deviation bound when AllSwitchesCost)
+	// AllSwitchesCost: every non-default choice costs 1, also when the running
+	// thread had blocked (deviation bounding). False: only preemptions cost
+	// (iterative context bounding; switches at blocking points are free).
+	AllSwitchesCost bool
 	Shard    int
 	NShards  int
 	Deadline time.Time
@@ -48,10 +52,10 @@ type Explorer struct {
 	SampleLog  string
 }
 
-func preemptions(ds []Decision, upto int) int {
+func (ex *Explorer) cost(ds []Decision, upto int) int {
 	n := 0
 	for i := 0; i < upto && i < len(ds); i++ {
-		if ds[i].CurEnabled && ds[i].Chosen != 0 {
+		if (ds[i].CurEnabled || ex.AllSwitchesCost) && ds[i].Chosen != 0 {
 			n++
 		}
 	}
@@ -113,7 +117,7 @@ func (ex *Explorer) Explore() error {
 			for _, v := range r.Violations {
 				fo := ex.Found[v.Sig]
 				if fo == nil {
-					fo = &Found{Violation: v, Choices: x.Choices(), Preemptions: preemptions(x.Decisions, len(x.Decisions))}
+					fo = &Found{Violation: v, Choices: x.Choices(), Preemptions: ex.cost(x.Decisions, len(x.Decisions))}
 					ex.Found[v.Sig] = fo
 					ex.FoundOrder = append(ex.FoundOrder, v.Sig)
 				}
@@ -124,8 +128,8 @@ func (ex *Explorer) Explore() error {
 		var kids []frame
 		for i := len(f.prefix); i < len(x.Decisions); i++ {
 			d := x.Decisions[i]
-			cost := preemptions(x.Decisions, i)
-			if d.CurEnabled {
+			cost := ex.cost(x.Decisions, i)
+			if d.CurEnabled || ex.AllSwitchesCost {
 				cost++
 			}
 			if cost > ex.Bound {
